@@ -60,14 +60,16 @@ def _tail(rng, base, k, kind, resting, step=None):
     return out
 
 
-def _prefix(events, t_cut, fast):
+def _prefix(events, t_cut, fast, k_cut=None):
     """Everything that belongs to simulated time < T_k.
     normal simulator: the clock is set from the input timestamps at the start of every minute, so the prefix is every
       event recorded while the clock is <= T_k (minute k-1 ends at T_k);
-    fast simulator: the clock only moves at fills and chunk ends, so the prefix ends where the chunk that STARTS at
-      index >= k begins (a chunk that starts earlier but swallows candle k is inside the prefix - that is a peek)."""
+    fast simulator: the clock only moves at fills and chunk ends, so the prefix ends where the chunk whose loop index is
+      >= k begins (a chunk that starts earlier but swallows candle k is inside the prefix - that is a peek; the loop index
+      is a function of positions only, so a simulator that hands a chunk later candles cannot move the cut)."""
     out = []
     started = False
+    by_chunk = fast and k_cut is not None and any(e['k'] == 'chunk' for e in events)
     for e in events:
         k = e['k']
         if k == 'daily':
@@ -75,6 +77,9 @@ def _prefix(events, t_cut, fast):
         if not started:
             # warm-up injection happens before the simulated clock is set: the clock value is the wall clock
             e = dict(e, t=None)
+        elif by_chunk:
+            if k == 'chunk' and e['index'] >= k_cut:
+                break
         elif fast:
             if k == 'mmatch_enter' and e['ts0'] >= t_cut:
                 break
@@ -153,7 +158,7 @@ def run_job(job):
     lattice = next(iter(spec['candles'].values())).get('lattice')
     for k, name in chosen:
         t_cut = t0 + k * 60000
-        pa = _prefix(ev, t_cut, fast)
+        pa = _prefix(ev, t_cut, fast, k)
         # resting prices at the cut
         active = {}
         for e in pa:
@@ -167,7 +172,7 @@ def run_job(job):
             tr = _tail(rng, x[w:], k, kind, list(active.values()), lattice)
             newc[s] = np.concatenate([x[:w], tr]) if w else tr
         B = session.run_session(spec, candles=newc)
-        pb = _prefix(B['events'], t_cut, fast)
+        pb = _prefix(B['events'], t_cut, fast, k)
         cnt['pairs_compared'] = cnt.get('pairs_compared', 0) + 1
         cnt['pairs_fast' if fast else 'pairs_step'] = cnt.get('pairs_fast' if fast else 'pairs_step', 0) + 1
         cnt[f'cut:{name}'] = cnt.get(f'cut:{name}', 0) + 1
